@@ -18,7 +18,7 @@ META = {
     "technique": "runtime monitoring with event-stream mangling at the provider boundary + family oracles + untouched-object write ledger",
     "plan": {"quick": {"shards": 16, "timeout": 600, "cases": 9000},
              "thorough": {"shards": 32, "timeout": 3000, "cases": 250000}},
-    "rule": "case = main-family case (ONE/DISJ/CONF/REUSE x flavour x shape; REUSE without reordering manglers, plus cases//6 REUSE cases with them whose failures are attributed to K24 by predicate) + 2-4 never-touched files in the base tree + a mangler "
+    "rule": "case = main-family case (ONE/DISJ/CONF/REUSE x flavour x shape; REUSE without reordering manglers; + cases//6 REMK cases (folder removed and made again under the same name in one window, id-stable acting side, all manglers), plus cases//6 REUSE cases with them whose failures are attributed to K24 by predicate) + 2-4 never-touched files in the base tree + a mangler "
             "configuration per side drawn from {dup, late-dup, split, idless, ghost, droppath, delay, permute} + optional "
             "manual walks; distinct = distinct (case signature, mangler sets); non-trivial = >= 1 event mangled and >= 1 engine write",
     "assumptions": ["events of the mock carry the provider cursor; no restarts in this check"],
@@ -159,7 +159,7 @@ def evaluate(case, obs, sim, monitors):
         cp = O.conflicted_paths(L, R)
         if cp:
             probs.append(("conflicted_artefact", cp[:3]))
-        if case["family"].startswith(("ONE", "REUSE")) and case["family"] != "REUSE2":
+        if case["family"].startswith(("ONE", "REUSE", "REMK")) and case["family"] != "REUSE2":
             side = int(case["family"][-1])
             ow = [c for c in O.engine_writes(sim, side=side, since=since) if c.get("ok") and c.get("ev")]
             if ow:
@@ -386,6 +386,27 @@ def shard(ctx, acc):
         acc.sample(dict(W.brief_case(case), manglers=case["manglers"]), cap=3)
         if probs:
             acc.violation(probs[0][0], probs[:4], case)
+    # REMK: folders removed and made again under the same name inside one window (a new object at an old path) on an id-stable
+    # side, every mangler allowed including late / reordered delivery (measured: 0 of 3 200 on the pinned tree)
+    for i in F.indices(ctx, plan["cases"] // 6):
+        case = F.make_case(ctx.seed, PROP + "remk", i, families=("REMK0", "REMK1"), flavours=("oo", "of", "fo", "op", "po"),
+                           nops=(4, 10))
+        side = int(case["family"][-1])
+        if case["flavour"][side] == "p":
+            continue
+        rng = random.Random("%s:C14remk:%d" % (ctx.seed, i))
+        case = add_untouched(case, rng)
+        kinds = []
+        for s_ in (0, 1):
+            pool = list(MANGLERS_ALL) + (list(MANGLERS_STABLE) if case["flavour"][s_] != "p" else [])
+            kinds.append(sorted(rng.sample(pool, rng.randrange(1, 4))))
+        case["manglers"] = kinds
+        probs = run(case, acc)
+        if probs is None:
+            continue
+        acc.count("remk_cases")
+        if probs:
+            acc.violation("remk:" + probs[0][0], probs[:4], case)
     if ctx.shard == 0:
         from vlib import probes as P
         P.run_fixed_demos(PROP, acc)
